@@ -85,7 +85,7 @@ def gen_histories(ctx, binp, pid):
             disorder = 0.0
             if pid == "C14":
                 disorder = 0.25 if j % 2 == 0 else 0.08
-            hs.append(l2gen.lifecycle_history(w, rnd, nops, disorder=disorder))
+            hs.append(l2gen.lifecycle_history(w, rnd, nops, disorder=disorder, fuzz=0.6 if pid == "C14" else 0.0))
     return hs
 
 
